@@ -69,6 +69,22 @@ func (x *ctx) pair(a, b *big.Int) {
 	x.expect("Sub-aliased", t.Sub(sa, t), new(big.Int).Sub(a, b), det)
 	t.Set(sa)
 	x.expect("Mul-aliased", t.Mul(t, t), new(big.Int).Mul(a, a), det)
+	// every aliasing pattern of the three-operand forms: out==second operand, out==first operand, all three equal
+	t.Set(sb)
+	x.expect("Add-aliased(out=b)", t.Add(sa, t), new(big.Int).Add(a, b), det)
+	t.Set(sa)
+	x.expect("Sub-aliased(out=a)", t.Sub(t, sb), new(big.Int).Sub(a, b), det)
+	t.Set(sb)
+	x.expect("Mul-aliased(out=b)", t.Mul(sa, t), new(big.Int).Mul(a, b), det)
+	t.Set(sa)
+	x.expect("Mul-aliased(out=a)", t.Mul(t, sb), new(big.Int).Mul(a, b), det)
+	t.Set(sa)
+	x.expect("Add-aliased(all)", t.Add(t, t), new(big.Int).Add(a, a), det)
+	t.Set(sa)
+	x.expect("Sub-aliased(all)", t.Sub(t, t), new(big.Int), det)
+	if !bytes.Equal(bytesOf(sa), ref.LE32(a)) || !bytes.Equal(bytesOf(sb), ref.LE32(b)) {
+		x.r.Violate("scalar/operand-modified", det(), x.c)
+	}
 	for ch := 0; ch < 2; ch++ {
 		t := scalar.New()
 		t.ConditionalSelect(sa, sb, ch)
@@ -202,6 +218,31 @@ func (x *ctx) lists(rng *rand.Rand) {
 		x.r.Eval([]byte(det()))
 		x.expect("Sum", scalar.New().Sum(ss), sum, det)
 		x.expect("Product", scalar.New().Product(ss), prod, det)
+		if n > 0 {
+			// the receiver is one of the values (x = x*y*z in place), and one value listed twice
+			for _, j := range []int{0, n / 2, n - 1} {
+				cp := func() []*scalar.Scalar {
+					o := make([]*scalar.Scalar, n)
+					for i := range ss {
+						o[i] = scalar.New().Set(ss[i])
+					}
+					return o
+				}
+				l := cp()
+				x.expect(fmt.Sprintf("Sum(receiver=values[%d of %d])", j, n), l[j].Sum(l), sum, det)
+				l = cp()
+				x.expect(fmt.Sprintf("Product(receiver=values[%d of %d])", j, n), l[j].Product(l), prod, det)
+				for i := range l {
+					if i != j && !bytes.Equal(bytesOf(l[i]), bytesOf(ss[i])) {
+						x.r.Violate("scalar/Product/operand-modified", det(), x.c)
+					}
+				}
+				l = append(cp(), nil)
+				l[n] = l[j]
+				x.expect("Sum(value listed twice)", scalar.New().Sum(l), new(big.Int).Add(sum, vals[j]), det)
+				x.expect("Product(value listed twice)", scalar.New().Product(l), new(big.Int).Mul(prod, vals[j]), det)
+			}
+		}
 		// BatchInvert on non-zero (possibly unreduced) inputs
 		var nz []*big.Int
 		var nzs []*scalar.Scalar
